@@ -277,6 +277,41 @@ var concScenarios = []scenario{
 		s.newSession(a2, a2.csNext)
 		s.do(a2, putfh(s.fh(1)), read(oa.sid))
 	}},
+	{"io-in-flight-longer-than-lease", func(s *script) {
+		// A READ runs for twice the lease time while nobody else talks to
+		// the server. The COMPOUND that is executing keeps the client
+		// alive and its completion renews the lease: a second later the
+		// state ID is still good.
+		a := s.client("A", 1)
+		s.do(a, putroot(), openName("o1", "a", shRW, "NOCREATE"), getfh())
+		oa := a.open("o1", s.fh(1))
+		s.do(a, putfh(s.fh(1)), lockNew(oa.sid, "l1", "W", 0, 2))
+		h := s.hold(a, 0, 1, "READ", s.fh(1), oa.sid)
+		s.e.advance(2 * leaseTicks)
+		s.release(h)
+		s.e.advance(1)
+		s.doOn(a, 0, 1, true, putfh(s.fh(1)), read(oa.sid))
+		s.e.advance(leaseTicks - 2)
+		s.doOn(a, 0, 1, true, putfh(s.fh(1)), write(oa.sid, "ok"))
+		s.doOn(a, 0, 1, true, putfh(s.fh(1)), closeOp(oa.sid))
+	}},
+	{"io-in-flight-silent-client-expires", func(s *script) {
+		// The control: B says nothing while A's READ runs for twice the
+		// lease time; B's lease runs out, A's does not.
+		a := s.client("A", 1)
+		b := s.client("B", 1)
+		s.do(a, putroot(), openName("o1", "a", shRW, "NOCREATE"), getfh())
+		s.do(b, putroot(), openName("o1", "a", shR, "NOCREATE"), getfh())
+		s.do(b, putfh(s.fh(1)), lockNew(b.open("o1", s.fh(1)).sid, "l1", "R", 0, 4))
+		oa, ob := a.open("o1", s.fh(1)), b.open("o1", s.fh(1))
+		h := s.hold(a, 0, 1, "WRITE", s.fh(1), oa.sid)
+		s.e.advance(2 * leaseTicks)
+		s.release(h)
+		s.e.advance(1)
+		s.doOn(a, 0, 1, true, putfh(s.fh(1)), lockNew(oa.sid, "l1", "W", 0, 4)) // B's lock is gone
+		s.do(b, putfh(s.fh(1)), read(ob.sid))                                   // B's session too
+		s.doOn(a, 0, 1, true, putfh(s.fh(1)), closeOp(oa.sid))
+	}},
 	{"io-in-flight-anonymous", func(s *script) {
 		a := s.client("A", 1)
 		b := s.client("B", 1)
@@ -501,6 +536,11 @@ func (d *rdriver) dupOne() {
 }
 
 func (d *rdriver) stepInFlight() {
+	if len(d.holds) > 0 && d.chance(5) {
+		// A request stays in flight for longer than the lease.
+		d.s.e.advance(leaseTicks + 1 + d.pick(leaseTicks))
+		return
+	}
 	switch r := d.pick(100); {
 	case r < 20 && len(d.holds) < 2:
 		d.startHold()
